@@ -394,7 +394,8 @@ class Run:
                 self.op_pop(e.p, e.n, 0, where)
         elif kind == "popd":
             # claim the outstanding request with the k-th earliest deadline: 0 pop by name, 1 pop by class,
-            # 2 / 3 retrieve_cache handler (plain / with trailing raw data)
+            # 2 / 3 retrieve_cache handler (plain / with trailing raw data), 4 / 5 the same with an earlier payload that
+            # carries the identifier of another outstanding request
             cands = sorted(self.out.values(), key=lambda e: (e.deadline, e.cid))
             if cands:
                 e = cands[op[1] % len(cands)]
@@ -618,7 +619,14 @@ class Run:
         t = self.now()
         del self.handler_calls[:]
         handler = self.stub.on_pa if p == "pa" else self.stub.on_pb
-        payloads = (self.env["Payload"](n), b"raw") if wd else (self.env["Payload"](n),)
+        # wd bit 0: the handler is a "_wd" one (raw data follows the payloads); bit 1: an earlier payload of the message
+        # also carries an ``identifier`` - the number of another outstanding request of this prefix if there is one -
+        # while the documented carrier of the answer's identifier is the LAST payload
+        lead = ()
+        if wd & 2:
+            others = sorted(k[1] for k in self.out if k[0] == p and k[1] != n)
+            lead = (self.env["Payload"](others[0] if others else (n + 1) % 6),)
+        payloads = (*lead, self.env["Payload"](n), b"raw") if wd & 1 else (*lead, self.env["Payload"](n))
         try:
             r = handler(("1.2.3.4", 5), *payloads)
         except Exception as x:  # noqa: BLE001
@@ -836,9 +844,9 @@ def _strategies():
     addr = st.tuples(st.just("addr"), prefix, ti, beh, fv, st.integers(0, 5)).map(list)
     pop = st.tuples(st.just("pop"), prefix, st.integers(0, 5), st.integers(0, 1)).map(list)
     popc = st.tuples(st.just("popc"), st.integers(0, 30)).map(list)
-    popd = st.tuples(st.just("popd"), st.integers(0, 3), st.integers(0, 3)).map(list)
+    popd = st.tuples(st.just("popd"), st.integers(0, 3), st.integers(0, 5)).map(list)
     get = st.tuples(st.sampled_from(["get", "has"]), prefix, st.integers(0, 5), st.integers(0, 1)).map(list)
-    retrieve = st.tuples(st.just("retrieve"), prefix, st.integers(0, 5), st.integers(0, 1)).map(list)
+    retrieve = st.tuples(st.just("retrieve"), prefix, st.integers(0, 5), st.integers(0, 3)).map(list)
     future = st.tuples(st.just("future"), st.integers(0, 30), st.integers(1, 3)).map(list)
     settle = st.tuples(st.just("settle"), st.integers(0, 30), st.integers(0, 1)).map(list)
     eps = st.sampled_from([-1, 0, 0, 1])
